@@ -219,6 +219,7 @@ class nat_eval_macro(Macro):
     def eval(self, goal, prevs):
         assert len(prevs) == 0, "nat_eval_macro: no conditions expected"
         assert goal.is_equals(), "nat_eval_macro: goal must be an equality"
+        assert goal.lhs.get_type() == NatType, "nat_eval_macro: goal must be an equality on natural numbers"
         assert nat_eval(goal.lhs) == nat_eval(goal.rhs), "nat_eval_macro: two sides are not equal"
 
         return Thm(goal)
